@@ -10,6 +10,8 @@ History data (JSON-able):
       | ["D", v] | ["X", v, name]                      del v.children / del v[name]
       | ["N", name, parg, carg, fp, fc]                DAGNode(name, parents=…, children=…) -> next id
   arg = ["L", [m, …]] | ["T", [m, …]] | ["N"]          list / tuple / not iterable (5)
+      | ["G", [m, …]]                                   a one-shot iterator over these members (children arguments only:
+                                                        DAGNode documents `Iterable` there; the setter must read it once)
       | ["H", k, [m, …]]                                the harness-side list OBJECT number k, passed as it is: the same
                                                         object for every use of k in the history (created at first use,
                                                         or by "M"); [m, …] = the content it must have at that moment if
@@ -209,6 +211,8 @@ class World:
                 self.pool[a[1]] = [self.member(m) for m in a[2]]
             return self.pool[a[1]]          # the SAME object every time, content untouched by the harness
         xs = [self.member(m) for m in a[1]]
+        if a[0] == "G":
+            return iter(xs)
         return xs if a[0] == "L" else tuple(xs)
 
     def _read(self, node, attr):
@@ -957,7 +961,7 @@ def _random_op(rng, n, names, rank, fault_rate, wild, members=None):
     if r < 0.30:
         return ["P", v, [("T" if is_wild and rng.random() < 0.15 else "L"), pick(True, rng.choice([0, 1, 1, 2, 2, 3, 4]))], f]
     if r < 0.55:
-        return ["C", v, [("T" if rng.random() < 0.1 else "L"), pick(False, rng.choice([0, 1, 1, 2, 2, 3, 4]))], f]
+        return ["C", v, [rng.choice(["T", "G", "G"]) if rng.random() < 0.2 else "L", pick(False, rng.choice([0, 1, 1, 2, 2, 3, 4]))], f]
     if r < 0.65:
         m = pick(False, 1)
         return ["R", v, (m[0] if m else rng.choice(allm)), f]
@@ -1022,7 +1026,8 @@ def gen_random_history(rng, fault_rate=0.25, nmin=4, nmax=8, maxops=40, wild=0.1
             fp = rng.choice(["pre", "post"]) if rng.random() < fault_rate / 2 else "none"
             fc = rng.choice(["pre", "post"]) if rng.random() < fault_rate / 2 else "none"
             nm = rng.choice(alphabet)
-            op = ["N", nm, maybe_shared(["L", ps], True), maybe_shared(["L", cs], True), fp, fc]
+            ck = "G" if rng.random() < 0.1 else "L"
+            op = ["N", nm, maybe_shared(["L", ps], True), maybe_shared([ck, cs], True), fp, fc]
             rank.append(newrank)
             names.append(nm)
             cur += 1
@@ -1096,7 +1101,10 @@ def corpus():
                    ["P", 2, ["L", [5, 1, 0]], f], ["C", 2, ["L", [5, 3, 4]], f], ["P", 2, ["L", [1]], f], ["C", 2, ["L", [3]], f],
                    ["P", 2, ["L", [1, 1]], f], ["C", 2, ["L", [5, 5]], f], ["P", 2, ["L", [2]], f], ["C", 2, ["L", [2]], f],
                    ["P", 2, ["L", [5, "j0"]], f], ["C", 2, ["L", [5, "j1"]], f], ["P", 2, ["T", [5]], f], ["C", 2, ["T", [5]], f],
-                   ["P", 2, ["N"], f], ["C", 2, ["N"], f]]
+                   ["P", 2, ["N"], f], ["C", 2, ["N"], f],
+                   # one-shot iterators as the children argument (D13): read once, assigned and rolled back like a list
+                   ["C", 2, ["G", [5, 3, 4]], f], ["C", 0, ["G", [4, 5]], f], ["C", 4, ["G", [5, 0]], f], ["C", 2, ["G", [5, 5]], f],
+                   ["C", 2, ["G", []], f], ["C", 3, ["G", [5, "j1"]], f], ["P", 2, ["G", [5]], "none"]]
         for c in closers:
             out.append((mk_data(6, chain + [c]), ("corpus", "chain")))
     diamond = [["C", 0, ["L", [1, 2]], "none"], ["P", 3, ["L", [2, 1]], "none"], ["C", 3, ["L", [4]], "none"]]
@@ -1115,7 +1123,8 @@ def corpus():
     # constructor: half-built node when the children assignment fails
     for op in [["N", "x", ["L", [0]], ["L", [0]], "none", "none"], ["N", "x", ["L", [0, 1]], ["L", [2]], "none", "post"],
                ["N", "x", ["L", [0, 1]], ["L", [2]], "post", "none"], ["N", "x", ["L", [2]], ["L", [0]], "none", "none"],
-               ["N", "x", ["L", [0]], ["L", [2]], "none", "none"], ["N", "x", ["L", [0, 0]], ["L", []], "none", "none"]]:
+               ["N", "x", ["L", [0]], ["L", [2]], "none", "none"], ["N", "x", ["L", [0, 0]], ["L", []], "none", "none"],
+               ["N", "x", ["L", [0, 1]], ["G", [2]], "none", "post"], ["N", "x", ["L", [0]], ["G", [2]], "none", "none"]]:
         out.append((mk_data(3, [["R", 0, 1, "none"], ["R", 1, 2, "none"], op, ["D", 0]]), ("corpus", "constructor")))
     return out
 
